@@ -509,6 +509,13 @@ func HFile(kind, st, m, mode int) {
 			ob, _ := fb.Seek(0, 1)
 			sym.Assert(oa == ob, "C12|"+label+"|inject|offset-moved-by-failed-call")
 		}
+		// the handle itself is as usable as a twin handle that never saw the
+		// failed call (a refused Close must not have closed the base handle)
+		pa, perra := fileCall(fa, "Stat", s, n)
+		pb, perrb := fileCall(fb, "Stat", s, n)
+		sym.Assert(hx.Code(perra) == hx.Code(perrb) && pa == pb, "C12|"+label+"|inject|handle-state-changed-by-failed-call|Stat")
+		ca, cb := fa.Close(), fb.Close()
+		sym.Assert(hx.Code(ca) == hx.Code(cb), "C12|"+label+"|inject|handle-state-changed-by-failed-call|Close|"+hx.CodeName(hx.Code(ca))+"-vs-"+hx.CodeName(hx.Code(cb)))
 		return
 	}
 	rb, errb = fileCall(fb, name, s, n)
